@@ -471,6 +471,7 @@ func TestC15Caller(t *testing.T) { rapid.Check(t, propC15) }
 
 // Deterministic sweep: every front end at skip 0..2 and depth {0, 100}.
 func TestC15Sweep(t *testing.T) {
+	c15DiagnosticCallers(t)
 	n := 0
 	for _, sugar := range []bool{false, true} {
 		for skip := 0; skip <= 2; skip++ {
